@@ -24,6 +24,15 @@
 import FianoModel.TightenMe.Preserve
 import FianoModel.TightenMe.ParseLemmas
 import FianoModel.TightenMe.Reparse
+import FianoModel.TightenMe.SecondRun
+import FianoModel.TightenMe.Large
+import FianoModel.TightenMe.TreeStep
+import FianoModel.TightenMe.TreeAbs
+import FianoModel.TightenMe.TreeAsm
+import FianoModel.TightenMe.TreeExample
+import FianoModel.TightenMe.TreeParse
+import FianoModel.TightenMe.TreeMore
+import FianoModel.Uefi.Guid
 import FianoModel.TightenMe.Example
 import FianoModel.TightenMe.Tie
 import FianoModel.TightenMe.CodeTie   -- T1 code-as-code tie (wp-t1x): audited as a tie module of this check
@@ -160,14 +169,15 @@ theorem c12_no_table (pol : Nat) (f f' : Flash) (w : WF f) (h : tighten pol f = 
 
 /-- **The truncated ME tail reappears as the leading padding of the BIOS region, and it is
     erased.**  All other BIOS elements keep their bytes and order (their offsets grow by the
-    size of the tail). -/
+    size of the tail).  `leadPad tail` is that one padding, or nothing when the tail is empty (the
+    repaired code does not insert an empty padding, fixes/C12-empty-leading-padding.diff). -/
 theorem c12_freed_is_erased_bios_padding (pol : Nat) (f f' : Flash) (w : WF f) (h : tighten pol f = .ok f') :
     ∃ mer br br' fpt free blen elems tail,
       mer ∈ f.regions ∧ br ∈ f.regions ∧ br' ∈ f'.regions ∧
       mer.body = .me fpt free ∧ br.body = .bios blen elems ∧
       mer.buf = mer.buf.take (mer.buf.length - tail.length) ++ tail ∧
       isErased tail pol = true ∧
-      br'.body = .bios (blen + tail.length) (⟨false, 0, tail, 0⟩ :: shiftElems tail.length elems) ∧
+      br'.body = .bios (blen + tail.length) (leadPad tail ++ shiftElems tail.length elems) ∧
       payload br' = tail ++ payload br := by
   obtain ⟨pre, post, mer, br, fpt, free, blen, elems, r0, r1, rest, nb, hsplit, hr, hmb, mref, hbb, bref,
     hadj, hb1, hnb, hnb1, hnb2, hmlen, her, hf'⟩ := tighten_shape pol f f' w h
@@ -379,11 +389,11 @@ theorem c12_result_is_tight (pol : Nat) (f f' : Flash) (w : WF f) (h : tighten p
 
 /-! ## C12.7 from the image: parsing builds a well-formed tree -/
 
-/-- **Every parsed flash image is well-formed** (image size a multiple of 4 KiB and below 2^28
+/-- **Every parsed flash image is well-formed** (image size a multiple of 4 KiB and at most 2^28
     bytes), so all theorems above apply to every tree `uefi.Parse` builds from such an image; the
     payloads of its regions are the image's bytes from offset 4096 on. -/
 theorem c12_parsed_is_wf (pol0 : Nat) (img : Bytes) (f : Flash) (pol : Nat)
-    (hsz : img.length % 4096 = 0) (hlt : img.length < 2 ^ 28)
+    (hsz : img.length % 4096 = 0) (hlt : img.length ≤ 2 ^ 28)
     (hp : parseFlash pol0 img = .ok (f, pol)) :
     WF f ∧ f.size = img.length ∧ f.regions.flatMap payload = img.drop descLen := by
   obtain ⟨w, h1, _, h3, _⟩ := parse_WF pol0 img f pol hsz hlt hp
@@ -394,7 +404,7 @@ theorem c12_parsed_is_wf (pol0 : Nat) (img : Bytes) (f : Flash) (pol : Nat)
     `c12_descriptor_diff`) followed by the *input image's own bytes* from offset 4096 on; its size
     is the input's size. -/
 theorem c12_end_to_end (pol0 : Nat) (img : Bytes) (f f' g' : Flash) (pol p0 p1 : Nat)
-    (hsz : img.length % 4096 = 0) (hlt : img.length < 2 ^ 28)
+    (hsz : img.length % 4096 = 0) (hlt : img.length ≤ 2 ^ 28)
     (hp : parseFlash pol0 img = .ok (f, pol)) (ht : tighten pol f = .ok f')
     (hs : asmFlash p0 f' = .ok (g', p1)) :
     g'.buf = asmDesc f'.desc ++ img.drop descLen ∧ (asmDesc f'.desc).length = descLen ∧
@@ -432,7 +442,7 @@ theorem c12_end_to_end (pol0 : Nat) (img : Bytes) (f f' g' : Flash) (pol p0 p1 :
     unchanged then, too). -/
 theorem c12_idempotent_reparse (p0 : Nat) (img : Bytes) (f f' g' t t' s' : Flash)
     (pol pa pa' q0 q pb pb' : Nat)
-    (hsz : img.length % 4096 = 0) (hlt : img.length < 2 ^ 28)
+    (hsz : img.length % 4096 = 0) (hlt : img.length ≤ 2 ^ 28)
     (hp : parseFlash p0 img = .ok (f, pol)) (sane : f.desc.Sane)
     (ht : tighten pol f = .ok f') (hs : asmFlash pa f' = .ok (g', pa'))
     (hfit : ∀ mer ∈ f.regions, ∀ mer' ∈ f'.regions, mer.body.isME = true → mer'.body.isME = true →
@@ -441,6 +451,250 @@ theorem c12_idempotent_reparse (p0 : Nat) (img : Bytes) (f f' g' t t' s' : Flash
     (hs2 : asmFlash pb t' = .ok (s', pb')) :
     s'.buf = g'.buf :=
   reparse_idempotent p0 img f f' g' t t' s' pol pa pa' q0 q pb pb' hsz hlt hp sane ht hs hfit hr ht2 hs2
+
+/-! ## C12.8 the second run (follow-up wp-c12b, task 1) -/
+
+/-- **When the second `tighten_me` succeeds.**  parse, `tighten_me`, save, parse the saved image in a
+    new process: `tighten_me` succeeds on the re-parsed tree **iff** `SecondOk f f'` — a decidable
+    predicate on the trees before and after the first `tighten_me`: the ME node had partitions with
+    storage (`FreeSpaceOffset > 0`, so the region was not shrunk to nothing) and its partition table
+    still ends inside the shrunk ME buffer (`tableFits`).  Otherwise it refuses with "no ME region
+    found" (shrunk to nothing) or "not erased" (table cut: fiano no longer parses the table, wants
+    the whole region erased, and meets the `$FPT` signature).  Refusal leaves the tree as it is
+    (`tighten` returns no tree). -/
+theorem c12_second_tighten_iff (p0 : Nat) (img : Bytes) (f f' g' t : Flash) (pol pa pa' q0 q : Nat)
+    (hsz : img.length % 4096 = 0) (hlt : img.length ≤ 2 ^ 28)
+    (hp : parseFlash p0 img = .ok (f, pol)) (sane : f.desc.Sane)
+    (ht : tighten pol f = .ok f') (hs : asmFlash pa f' = .ok (g', pa'))
+    (hr : parseFlash q0 g'.buf = .ok (t, q)) :
+    ((∃ t', tighten q t = .ok t') ↔ SecondOk f f') ∧
+    (¬ SecondOk f f' → tighten q t = .error .noME ∨ tighten q t = .error .notErased) :=
+  second_tighten_iff p0 img f f' g' t pol pa pa' q0 q hsz hlt hp sane ht hs hr
+
+/-- **The second run succeeds iff …**  `secondRun q0 B` is `utk B tighten_me save` in a new process
+    (parse, `tighten_me`, Assemble — the save only if `tighten_me` succeeded).  It succeeds iff the
+    first saved image can be loaded and saved at all (`utk B save` works) and `SecondOk f f'`. -/
+theorem c12_second_run_succeeds_iff (p0 : Nat) (img : Bytes) (f f' g' : Flash) (pol pa pa' q0 : Nat)
+    (hsz : img.length % 4096 = 0) (hlt : img.length ≤ 2 ^ 28)
+    (hp : parseFlash p0 img = .ok (f, pol)) (sane : f.desc.Sane)
+    (ht : tighten pol f = .ok f') (hs : asmFlash pa f' = .ok (g', pa')) :
+    (∃ s p, secondRun q0 g'.buf = .ok (s, p)) ↔
+      ((∃ t q s p, parseFlash q0 g'.buf = .ok (t, q) ∧ asmFlash q t = .ok (s, p)) ∧ SecondOk f f') :=
+  (second_run p0 img f f' g' pol pa pa' q0 hsz hlt hp sane ht hs).1
+
+/-- **Idempotent across save + re-parse, both branches.**  If the second run succeeds it writes the
+    first saved image again, byte for byte; if it does not, it writes nothing (`secondRun` returns an
+    error and no image: `utk` stops at the first failing visitor, before `save`). -/
+theorem c12_second_run_idempotent (p0 : Nat) (img : Bytes) (f f' g' : Flash) (pol pa pa' q0 : Nat)
+    (hsz : img.length % 4096 = 0) (hlt : img.length ≤ 2 ^ 28)
+    (hp : parseFlash p0 img = .ok (f, pol)) (sane : f.desc.Sane)
+    (ht : tighten pol f = .ok f') (hs : asmFlash pa f' = .ok (g', pa')) :
+    (∀ s p, secondRun q0 g'.buf = .ok (s, p) → s.buf = g'.buf) ∧
+    ((∃ e, secondRun q0 g'.buf = .error e) ∨ ∃ s p, secondRun q0 g'.buf = .ok (s, p) ∧ s.buf = g'.buf) := by
+  have h2 := (second_run p0 img f f' g' pol pa pa' q0 hsz hlt hp sane ht hs).2
+  refine ⟨h2, ?_⟩
+  cases hrun : secondRun q0 g'.buf with
+  | error e => exact Or.inl ⟨e, rfl⟩
+  | ok r => exact Or.inr ⟨r.1, r.2, rfl, h2 r.1 r.2 hrun⟩
+
+/-- `SecondOk` is decidable and both outcomes occur: it holds for the example tree (one partition
+    ending at 0x1040, table at the start of the region) and fails for the same tree without
+    partitions with storage. -/
+example : SecondOk exFlash { exFlash with regions := [⟨.idx 1, .me (some [⟨0x40, 0x1000⟩]) 0x1040, ffs 8192⟩] } := by
+  intro mer hm mer' hm' a b
+  simp only [exFlash, List.mem_cons, List.not_mem_nil, or_false] at hm hm'
+  subst hm'
+  rcases hm with rfl | rfl
+  · refine ⟨by decide, ?_⟩
+    have : indexOf fptSig (ffs 12288) 0 = none := by
+      have key : ∀ n a, indexOf fptSig (ffs n) a = none := by
+        intro n
+        induction n with
+        | zero => intro a; rfl
+        | succ n ih => intro a; simp only [ffs, List.replicate_succ, indexOf] at ih ⊢; exact ih (a + 1)
+      exact key _ _
+    simp only [tableFits, this]
+  · simp [Body.isME] at a
+
+/-! ## C12.9 images of 2^28 bytes and more (follow-up wp-c12b, task 2) -/
+
+/-- **An image larger than 2^28 bytes is never written**, with or without `tighten_me`.  Base and
+    Limit are 16-bit block numbers, so every region — table slot or gap — ends at 2^28 at the latest
+    and the last check of Assemble's FlashImage case (`offset != FlashSize`) cannot pass.  `uefi.Parse`
+    accepts such an image (the Limit of its last gap region wraps) and `tighten_me` rewrites the tree,
+    but no byte is ever saved: the property, which speaks about written images, holds vacuously there.
+    (At exactly 2^28 bytes everything above applies: `c12_parsed_is_wf` … take `≤ 2^28`.) -/
+theorem c12_large_image_never_saved (p0 : Nat) (img : Bytes) (f : Flash) (pol : Nat)
+    (hp : parseFlash p0 img = .ok (f, pol)) (hbig : img.length > 2 ^ 28) :
+    (∀ p, ∃ e, asmFlash p f = .error e) ∧
+    (∀ f', tighten pol f = .ok f' → ∀ p, ∃ e, asmFlash p f' = .error e) := by
+  obtain ⟨u, hsize⟩ := parse_u16 p0 img f pol hp
+  refine ⟨fun p => asmFlash_fails_large p f u (by rw [hsize]; exact hbig), ?_⟩
+  intro f' ht p
+  obtain ⟨u', hsize'⟩ := tighten_keeps_u16 pol f f' u ht
+  exact asmFlash_fails_large p f' u' (by rw [hsize', hsize]; exact hbig)
+
+/-- the tree-level fact behind it, on a tree that is not vacuous: the example tree with a size beyond
+    2^28 cannot be saved -/
+example : ∃ e, asmFlash 0xFF { exFlash with size := 2 ^ 28 + 4096 } = .error e :=
+  asmFlash_fails_large 0xFF _
+    ⟨by
+      intro fr hfr
+      simp only [exFlash, List.mem_cons, exUnused, List.mem_replicate] at hfr
+      rcases hfr with rfl | rfl | ⟨_, rfl⟩ <;> simp,
+     by
+      intro r hr fr hfr
+      simp only [exFlash, List.mem_cons, List.not_mem_nil, or_false] at hr
+      rcases hr with rfl | rfl <;> cases hfr⟩
+    (by simp)
+
+/-! ## C12.10 volumes with files: `tighten_me` on the shared UEFI tree (follow-up wp-c12b, task 3)
+
+  `T.tightenFlash` is `TightenME.Run` on the tree model shared with C01–C05 (volumes, files,
+  sections); `T.stepT` adds it to the command line of `Uefi.step` (insert*, remove*, replace_pe32,
+  save, the read-only commands).  The correspondence harness compares the digest of the WHOLE tree
+  after every visitor of command lines that mix `tighten_me` with those operations. -/
+
+open T in
+/-- **Frame: `tighten_me` commutes with every modelled visitor other than `save`.**  If from one
+    state the visitor `op` (an insert, remove, replace_pe32 or read-only command whose predicate does
+    not look at the reported offset of a volume — true of every predicate the command line builds)
+    succeeds and `tighten_me` succeeds, then each also succeeds after the other and the two orders end
+    in the same state: tree, process state, written files, FreeSpaceOffset. -/
+theorem c12_tree_tighten_commutes (h : Uefi.Hooks) (op : Uefi.Op) (hns : isSaveOp op = false) (hinv : OpOffInv op)
+    (s s1 s2 : TRun) (hop : stepT h (.op op) s = .ok s1) (ht : stepT h .tighten s = .ok s2) :
+    ∃ s3, stepT h .tighten s1 = .ok s3 ∧ stepT h (.op op) s2 = .ok s3 :=
+  step_tighten_comm h op hns hinv s s1 s2 hop ht
+
+open T in
+/-- the hypothesis `OpOffInv` holds for the predicates of the command line: literal selectors
+    (`selFvPred`, `selFilePred`) and type predicates never read `fvOffset` -/
+example (sel : List Nat) (w : Uefi.Where) (nf : Option Uefi.File) (body : Bytes) (pad : Bool) :
+    OpOffInv (.insert (Uefi.selFvPred sel) w nf) ∧ OpOffInv (.remove (Uefi.selFilePred sel) pad) ∧
+    OpOffInv (.replacePe32 (Uefi.selFilePred sel) body) ∧ OpOffInv (.ro (.dump (Uefi.selFilePred sel))) ∧
+    OpOffInv (.insert (Uefi.typePred 5) .dxe nf) :=
+  ⟨fun _ _ _ _ => rfl, trivial, fun _ _ _ _ => rfl, fun _ _ _ _ => rfl, fun _ _ _ _ => rfl⟩
+
+open T in
+/-- **`tighten_me` changes no file, section or volume.**  After a successful `tighten_me` the BIOS
+    node holds the erased tail cut off the ME buffer as one new leading padding (`leadPadT tail`: none
+    when nothing was cut off), followed by its old elements, each identical — header fields, buffer,
+    files with all their sections — except for the reported offset (`sameButOffset`); its own buffer
+    is untouched; the ME node keeps a prefix of its buffer; every other node, the root buffer and the
+    flash size are untouched. -/
+theorem c12_tree_content_untouched (free pol : Nat) (f f' : Uefi.Flash) (h : tightenFlash free pol f = .ok f') :
+    ∃ (i j : Nat) (mbuf : Bytes) (mfr : Uefi.FlashRegion) (b : Uefi.BiosRegion) (bfr : Uefi.FlashRegion) (tail : Bytes)
+      (b' : Uefi.BiosRegion) (mfr' : Uefi.FlashRegion),
+      f.regions[i]? = some (.me mbuf mfr) ∧ f.regions[j]? = some (.bios b) ∧ b.fr = some bfr ∧
+      f'.regions[i]? = some (.me (mbuf.take (mbuf.length - tail.length)) mfr') ∧
+      f'.regions[j]? = some (.bios b') ∧
+      mbuf = mbuf.take (mbuf.length - tail.length) ++ tail ∧ isErased tail pol = true ∧
+      (∃ rest : List Uefi.BiosElem, b'.elems = leadPadT tail ++ rest ∧ rest.length = b.elems.length ∧
+        ∀ (k : Nat) (e e' : Uefi.BiosElem), b.elems[k]? = some e → rest[k]? = some e' → sameButOffset e e') ∧
+      b'.buf = b.buf ∧
+      (∀ k, k ≠ i → k ≠ j → f'.regions[k]? = f.regions[k]?) ∧
+      f'.regions.length = f.regions.length ∧ f'.buf = f.buf ∧ f'.flashSize = f.flashSize :=
+  tighten_keeps_content free pol f f' h
+
+open T in
+/-- **The flash-level model is an abstraction of the tree model.**  On a tree whose ME / BIOS nodes
+    carry the table slots their pointers alias (`Aliased`: every parsed, edited or assembled tree),
+    `tightenFlash` is `tighten` on `absFlash` — the tree with the inside of the volumes forgotten.  So
+    `c12_boundary`, `c12_descriptor_*`, `c12_partitions_inside`, `c12_regions_still_tile`, … speak
+    about the very tree the harness compares. -/
+theorem c12_tree_is_refined_by_flash_model (fpt : Option (List Entry)) (free pol : Nat) (f f' : Uefi.Flash)
+    (al : Aliased f) (h : tightenFlash free pol f = .ok f') :
+    tighten pol (absFlash fpt free f) = .ok (absFlash fpt free f') :=
+  tighten_sim fpt free pol f f' al h
+
+open T in
+/-- **Frame at the level of the written image, volumes with files.**  On a well-formed shared tree
+    (`TWF`: its flash-level abstraction is well-formed and its nodes carry the table slots their
+    pointers alias — kept by every edit, `c12_tree_edit_keeps_wf`, and by `tighten_me`,
+    `c12_tree_tighten_keeps_wf`): if the tree can be saved, it can be saved after `tighten_me`, with the
+    same process state; the written image has the same length, is byte-identical from offset 4096 on —
+    every volume, with its files, is re-laid exactly as without `tighten_me` — and differs inside the
+    descriptor at most in the four bytes of BIOS Base / ME Limit.  `asmFlashT` is `visitors.Assemble`
+    on the shared tree (all children included). -/
+theorem c12_tree_save_frame (h : Uefi.Hooks) (fpt : Option (List Entry)) (free pol : Nat) (f f' g : Uefi.Flash)
+    (st st1 : Uefi.St) (w : TWF fpt free f) (ht : tightenFlash free pol f = .ok f')
+    (hs : asmFlashT h f st = .ok (g, st1)) :
+    ∃ g', asmFlashT h f' st = .ok (g', st1) ∧ g'.buf.length = g.buf.length ∧
+      g'.buf.drop 4096 = g.buf.drop 4096 ∧
+      ∀ p, p ≠ f.ifd.regionStart + 4 → p ≠ f.ifd.regionStart + 5 → p ≠ f.ifd.regionStart + 10 →
+        p ≠ f.ifd.regionStart + 11 → g'.buf[p]? = g.buf[p]? :=
+  tree_save_frame h fpt free pol f f' g st st1 w ht hs
+
+open T in
+/-- an edit (the rewriting step of insert*, remove*, replace_pe32) keeps the shared tree well-formed:
+    its flash-level abstraction does not change at all -/
+theorem c12_tree_edit_keeps_wf (E : Uefi.Editor) (fpt : Option (List Entry)) (free : Nat) (f : Uefi.Flash)
+    (rs1 : List Uefi.Region) (w : TWF fpt free f) (h : Uefi.rwRegions E f.regions = .ok rs1) :
+    TWF fpt free { f with regions := rs1 } :=
+  twf_rw E fpt free f rs1 w h
+
+open T in
+/-- `tighten_me` keeps the shared tree well-formed, pointer aliasing included -/
+theorem c12_tree_tighten_keeps_wf (fpt : Option (List Entry)) (free pol : Nat) (f f' : Uefi.Flash)
+    (w : TWF fpt free f) (h : tightenFlash free pol f = .ok f') : TWF fpt free f' :=
+  twf_tighten fpt free pol f f' w h
+
+open T in
+/-- **Every flash tree the shared parser builds is well-formed** (`TWF`), with the partition table and
+    FreeSpaceOffset NewMERegion computes (`fptOfRegions`, `freeOfRegions` — what `parseT` puts next to
+    the tree), for images that are a whole number of 4 KiB blocks below 2^28 bytes.  Rests on the
+    shared theorems `flash_faithful` (C04) and `parseFlash_sized` (C02). -/
+theorem c12_tree_parsed_is_wf (fuel : Nat) (img : Bytes) (st st' : Uefi.St) (f : Uefi.Flash)
+    (hp : Uefi.parseFlash Uefi.Hooks.none fuel img st = .ok (f, st'))
+    (hsz : img.length % 4096 = 0) (hlt : img.length < 2 ^ 28) :
+    TWF (fptOfRegions f.regions) (freeOfRegions f.regions) f :=
+  twf_parse fuel img st st' f hp hsz hlt
+
+open T in
+/-- every modelled visitor other than `save` keeps the shared tree well-formed — so
+    `c12_tree_save_frame` applies after any command line `parse; edit…; tighten_me; edit…` -/
+theorem c12_tree_step_keeps_wf (h : Uefi.Hooks) (op : Uefi.Op) (hns : isSaveOp op = false)
+    (fpt : Option (List Entry)) (free : Nat) (s s1 : Uefi.Run) (f : Uefi.Flash) (ht : s.tree = .flash f)
+    (w : TWF fpt free f) (hop : Uefi.step h op s = .ok s1) : ∃ f1, s1.tree = .flash f1 ∧ TWF fpt free f1 :=
+  twf_step h op hns fpt free s s1 f ht w hop
+
+open T in
+/-- **Whether `tighten_me` refuses does not depend on the edits before it**: for an editor blind to
+    reported offsets (every editor of the command line), `tighten_me` succeeds on the edited tree iff
+    it succeeds on the tree before the edit. -/
+theorem c12_tree_refusal_independent_of_edits (E : Uefi.Editor) (hE : Editor.OffInv E) (free pol : Nat)
+    (f : Uefi.Flash) (rs1 : List Uefi.Region) (hrw : Uefi.rwRegions E f.regions = .ok rs1) :
+    (∃ f2, tightenFlash free pol { f with regions := rs1 } = .ok f2) ↔ (∃ f2, tightenFlash free pol f = .ok f2) :=
+  tighten_ok_iff_rw E hE free pol f rs1 hrw
+
+open T in
+/-- **`asmFlashT` is the shared model's `Uefi.asmFlash`** on every well-formed tree in which no region is
+    empty (every parsed or edited tree; after `tighten_me` unless it shrank the ME region to nothing):
+    the two differ only in how `sort.Slice` treats equal keys.  A change of the shared FlashImage case
+    breaks this proof instead of a T2 run. -/
+theorem c12_tree_assemble_agrees_with_shared_model (h : Uefi.Hooks) (fpt : Option (List Entry)) (free : Nat)
+    (f : Uefi.Flash) (st : Uefi.St) (w : TWF fpt free f)
+    (hne : ∀ r ∈ f.regions, ∀ fr, r.fr = some fr → fr.baseOffset < fr.endOffset) :
+    Uefi.asmFlash h f st = asmFlashT h f st :=
+  asmFlashT_agrees_with_shared_model h fpt free f st w hne
+
+open T in
+/-- its hypothesis holds for the example tree -/
+example : ∀ r ∈ exTree.regions, ∀ fr, r.fr = some fr → fr.baseOffset < fr.endOffset := by
+  intro r hr fr hfr
+  simp only [exTree, List.mem_cons, List.not_mem_nil, or_false] at hr
+  rcases hr with rfl | rfl
+  · simp only [Uefi.Region.fr, Option.some.injEq] at hfr; subst hfr; decide
+  · simp only [Uefi.Region.fr, Option.some.injEq] at hfr; subst hfr; decide
+
+open T in
+/-- the hypotheses of `c12_tree_save_frame` are inhabited: the shared-tree counterpart of the example
+    image is well-formed, `tighten_me` succeeds on it, and it can be saved -/
+example : ∃ f' g st1, TWF (some [⟨0x40, 0x1000⟩]) 0x1040 exTree ∧ tightenFlash 0x1040 0xFF exTree = .ok f' ∧
+    asmFlashT Uefi.Hooks.none exTree { pol := 0xFF } = .ok (g, st1) := by
+  obtain ⟨f', h1⟩ := exTree_tightens
+  obtain ⟨g, st1, h2⟩ := exTree_saves
+  exact ⟨f', g, st1, exTree_twf, h1, h2⟩
 
 /-! ## non-vacuity -/
 
